@@ -39,6 +39,9 @@ type c17Client struct {
 	ct       string
 	defaults [][2]string
 	home     *methodInfo // the route whose own required header the defaults carry
+	// shareOpts: the application keeps its header call options in variables: one option VALUE per
+	// (header, value) is passed to every call that needs it
+	shareOpts bool
 }
 
 func canonKey(k string) string { return textproto.CanonicalMIMEHeaderKey(k) }
@@ -172,7 +175,7 @@ func c17Build(n int, mk func(i int) *ir.Request, add scratch.AddOpts, hook func(
 		if err == nil {
 			var ds *protoregistry.Files
 			if ds, err = gen.Descs(req); err == nil {
-				items[i] = &rtItem{req: req, file: req.FileByName(req.Generate[0]), it: it, descs: ds}
+				items[i] = &rtItem{req: req, file: req.FileByName(req.PrimaryName()), it: it, descs: ds}
 			}
 		}
 		if err != nil {
@@ -269,6 +272,7 @@ func c17Run(c *Ctx, hook func(bt *scratch.Batch) error) error {
 						}
 					}
 					cl.defaults = append(cl.defaults, [2]string{"X-Client", cl.svc.Name + "-" + cl.key})
+					cl.shareOpts = rr.Bool()
 					clients = append(clients, cl)
 				}
 			}
@@ -289,6 +293,11 @@ func c17Run(c *Ctx, hook func(bt *scratch.Batch) error) error {
 					k.classes = append(k.classes, "handler_error")
 				}
 				if !bare {
+					// an option value the application created once and passes FIRST to many calls
+					if cl.shareOpts && rr.P(2, 3) {
+						k.opts = append(k.opts, [2]string{"X-Shared-Opt", "kept-" + cl.key})
+						k.classes = append(k.classes, "reused_option_value")
+					}
 					// the route's own method-level headers
 					for _, h := range mi.m.Headers {
 						switch p := rr.Intn(10); {
@@ -352,6 +361,9 @@ func c17Run(c *Ctx, hook func(bt *scratch.Batch) error) error {
 					"default_headers": cl.defaults, "call_headers": orEmptyPairs(k.opts)}
 				if k.callCT != "" {
 					k.op["call_ct"] = k.callCT
+				}
+				if cl.shareOpts {
+					k.op["share_opts"] = cl.svc.Name + "-" + cl.key
 				}
 				return k
 			}
